@@ -30,8 +30,10 @@ def apply_mutant(root, m):
     p = os.path.join(root, m["file"])
     s = open(p).read()
     cnt = s.count(m["old"])
-    if cnt != 1:
+    if cnt != 1 and not m.get("multi"):
         raise RuntimeError("mutant %s: pattern occurs %d times in %s (must be exactly once)" % (m["id"], cnt, m["file"]))
+    if cnt == 0:
+        raise RuntimeError("mutant %s: pattern not found in %s" % (m["id"], m["file"]))
     open(p, "w").write(s.replace(m["old"], m["new"]))
 
 
@@ -68,7 +70,14 @@ def selftest(pid, only=None, verbose=True):
             except SystemExit as e:
                 failures.append("%s: mutant does not compile (%s)" % (m["id"], e))
                 continue
-            viol = run_rules(pid, fdir, root=root)
+            if pid == "ALL":
+                import json as _j
+                man = _j.load(open(os.path.join(engine.VERIF, "MANIFEST.json")))
+                viol = []
+                for c in man["checks"]:
+                    viol += run_rules(c["property_id"], fdir, root=root)
+            else:
+                viol = run_rules(pid, fdir, root=root)
             keys = [v["key"] for v in viol]
             if m.get("control"):
                 ok = not viol
